@@ -19,6 +19,11 @@ CLAIMS = {
   text="Machine-checked proofs: what has been written after any prefix is a prefix of the output for that prefix alone and for the whole input (C11_written_is_prefix, all inputs); after any hunk body line, from any state, the output buffer is empty and each line buffer holds at most line-buffer-size+1 lines (C11_lag_bound). Tie: the real binary is fed line by line with stdin held open; after each line (quiescence = main thread blocked in read(0) with the pipe drained) the visible rows written so far are compared with the extracted model's written items, and the lag/prefix oracle is evaluated on the bytes, in unified and side-by-side mode.",
   note="Trusted: Coq kernel; /proc-based quiescence detection; harness. Merge-conflict regions are held until their end by design: known finding F12 (reported as KNOWN-FINDING). No axioms.",
   design="§6 C11"),
+ "C14": dict(
+  technique="Coq proof (path extraction for every path, fragment passed on unchanged, one hunk-header item per hunk from any state) + black-box header-event oracle with reserved styles",
+  text="Machine-checked proofs: the path taken from `diff --git x/P y/P`, `--- x/P`, `+++ y/P` is P for every path P not ending in a tab and any mnemonic prefixes (C14_diff_line_path, C14_marker_line_path); the fragment of a hunk header is exactly the text after the closing @@ (C14_fragment_unchanged); every hunk gets exactly one hunk-header item directly before its first line, from any state (C14_one_hunk_header); a computed example covers rename+modify, mode-only, binary and deleted sections. On the real binary, header rows are recognised by reserved styles and the decoded sequence of file-header / hunk-header events must equal the sequence computed from the diff AST: all section kinds x path shapes x labels/arrow x modes, multi-commit logs ending in hunk-less sections, plain diff -u / -ru streams.",
+  note="Trusted: Coq kernel; harness and terminal decoder; 'exactly one file header per section' is decided on the implementation by the oracle (the model-level statement is the computed example plus the bookkeeping lemmas), grapheme = scalar value on the generator's alphabet. No axioms.",
+  design="§6 C14"),
  "C17": dict(
   technique="Coq proof (invariant relating the colour memo to the rendered rows, induction over the key sequence) + black-box correspondence of decoded background colours + extracted boolean specification as oracle",
   text="Machine-checked proof that the blame colour assignment (get_color/get_next_color) satisfies the three colour clauses for every key sequence and every palette of >= 2 distinct colours, and is total for every mixture of git-coloured and plain lines; the hand-written model is tied to the code by running generated blame streams (exhaustive small scope + random + git-coloured mixtures) through the real binary and comparing decoded background colours row by row; the extracted specb (proved equivalent to the specification) and a row-content oracle (code, line number, metadata blanking) are evaluated on the implementation's output.",
